@@ -102,3 +102,36 @@ Definition read_field (p : parid) (c : cova) : option Q :=
 (* ------------------------------------------------------------------ constant sill: st_updateAlphaDiag *)
 (* srm = sum over the other structures of alpha(ivar0,ivar0); value = consSill / xr^2 - srm; alpha = MAX(0, value) *)
 Definition alpha_diag (cons xr srm : Q) : Q := cmax 0 (cons / (xr * xr) - srm).
+
+(* ------------------------------------------------------------------ the constant-sill constraint of Constraints *)
+(* /repo/src/Model/Constraints.cpp: _constantSillValue (TEST = None), _constantSills (per variable, TEST = None),
+   expandConstantSill(nvar) = "_constantSills.resize(nvar, _constantSillValue)", isConstraintSillDefined,
+   model_auto_fit / vmap_auto_fit: "if (!FFFF(getConstantSillValue())) expandConstantSill(nvar)",
+   st_goulard_fitting: constrained Goulard iff the scalar value is defined, with consSill = getConstantSills() *)
+Record csill := mkCS { cs_value : option Q; cs_sills : list (option Q) }.
+
+(* std::vector::resize(n, v): keeps the first n entries, appends copies of v up to n *)
+Definition resize {A} (n : nat) (v : A) (l : list A) : list A := firstn n l ++ repeat v (n - length l).
+Definition expand_constant_sill (nvar : nat) (c : csill) : csill := mkCS (cs_value c) (resize nvar (cs_value c) (cs_sills c)).
+Definition is_constraint_sill_defined (c : csill) : bool :=
+  match cs_value c, cs_sills c with None, [] => false | _, _ => true end.
+
+(* what model_auto_fit hands to the Goulard step: None = unconstrained Goulard *)
+Definition fit_cons_sill (nvar : nat) (c : csill) : option (list (option Q)) :=
+  match cs_value c with
+  | None => None                                  (* the vector alone does not switch the constrained Goulard on *)
+  | Some _ => Some (cs_sills (expand_constant_sill nvar c))
+  end.
+
+(* the total sill imposed on variable v *)
+Definition imposed_total (nvar : nat) (c : csill) (v : nat) : option Q := nth v (cs_sills (expand_constant_sill nvar c)) None.
+
+(* st_goulard_with_constraints / _goulardWithConstraints, reset of the sills before the optimisation under constraints:
+   "matcor[icov](ivar,ivar) = FFFF(consSill[ivar]) ? 1 : consSill[ivar] / ncova" *)
+Definition reset_diag (cons : option Q) (ncova : nat) : Q :=
+  match cons with Some cv => cv / inject_Z (Z.of_nat ncova) | None => 1 end.
+
+(* model_auto_fit / vmap_auto_fit, after the options have been resolved (st_model_auto_count / st_vmap_auto_count):
+   "if (constraints.isConstraintSillDefined() && !optvar.getFlagGoulardUsed()) -> error": the constant sill is enforced by
+   the Goulard step only *)
+Definition constant_sill_refused (o' : optvar) (c : csill) : bool := is_constraint_sill_defined c && negb (o_goulard o').
